@@ -57,7 +57,7 @@ def gen_case(rng, prop, tier):
         mode = rng.choice(["immediate", "delayed", "burst", "late", "random"])
         open_at = rng.randint(3, 6) if mode != "late" else min(nblocks - 2, 3 + bpe * rng.randint(1, 20))
         sched.append({"mode": mode, "open": open_at, "lag": rng.randint(1, 4) * bpe, "burst": rng.randint(open_at + 2, nblocks),
-                      "stopped": False})
+                      "expired": False})
     churn = rng.choice([0.3, 0.6, 0.9])
     slash_p = 0.8 if c12 else 0.1
     for b in range(1, nblocks + 1):
@@ -82,9 +82,14 @@ def gen_case(rng, prop, tier):
             s = sched[c]
             if b == s["open"] or (b > s["open"] and rng.random() < 0.02):
                 acts.append([A_OPEN, c])
-            if rng.random() < 0.03:
-                acts.append([A_EXPIRE, c, rng.choice([0, 1, 1])])
-            if rng.random() < 0.01 and b > 8:
+            if s["expired"]:
+                if rng.random() < 0.5:
+                    s["expired"] = False
+                    acts.append([A_EXPIRE, c, 0])
+            elif rng.random() < 0.04:
+                s["expired"] = True
+                acts.append([A_EXPIRE, c, 1])
+            if rng.random() < 0.004 and b > 8:
                 acts.append([A_STOP, c])
             if rng.random() < (0.25 if c12 else 0.05):
                 acts.append([A_RELAY, c, rng.randint(1, 3)])
@@ -92,7 +97,7 @@ def gen_case(rng, prop, tier):
                 mode = rng.choice([0, 1, 1, 1])
                 val = rng.choice([0, 0, 1, 2, rng.randint(0, 12)]) if mode == 0 else rng.choice([0, 0, 1, 2, -1, -1, -2, -3, 5])
                 acts.append([A_FORGE, c, mode, val, rng.choice([-1, -1, rng.randrange(nvals)]), rng.choice([1, 2])])
-        if rng.random() < 0.02:
+        if rng.random() < 0.012:
             acts.append([A_FAULT, rng.randint(0, 3)])
         acts.append([A_PEND])
         # consumer blocks
